@@ -49,6 +49,7 @@ vars == <<todo, out, env, budget, sigs, nv, phase, cur>>
 
 Sym(s, x, n) == [s |-> s, x |-> x, n |-> n]
 T(x)    == Sym("T", x, 0)
+TY(x)   == Sym("TY", x, 0)             \* a type written in an annotation
 EX(ty)  == Sym("EXPR", ty, 0)          \* an expression of type ty
 PA(ty)  == Sym("PAT", ty, 0)           \* a pattern matching values of type ty
 BIND(ty) == Sym("BIND", ty, 0)         \* a fresh variable binder of type ty
@@ -126,7 +127,7 @@ Prods(h) ==
                                THEN { P(0, "lambda_pinned", <<T("fn"), T("("), Sym("MARK", "", 0), BIND(FstOf(ty)), Sym("COMMIT", "", 0), T(")"), T("{"), Sym("PINLAST", FstOf(ty), 0)>>
                                                           \o <<EX(SndOf(ty)), T("}"), Sym("POPMARK", "", 0)>>) }
                                ELSE {})
-                              \cup { P(0, "lambda_annot", <<T("fn"), T("("), Sym("MARK", "", 0), BIND(FstOf(ty)), T(":"), T(FstOf(ty)), Sym("COMMIT", "", 0), T(")")>>
+                              \cup { P(0, "lambda_annot", <<T("fn"), T("("), Sym("MARK", "", 0), BIND(FstOf(ty)), T(":"), TY(FstOf(ty)), Sym("COMMIT", "", 0), T(")")>>
                                                     \o <<T("{"), EX(SndOf(ty)), T("}"), Sym("POPMARK", "", 0)>>) }
                               \cup (IF ty = F1("Int", "Int") THEN { P(1, "capture", <<T("add"), T("("), T("_"), T(","), EX("Int"), T(")")>>) } ELSE {}))
   ELSE IF h.s = "PAT" THEN
@@ -174,15 +175,16 @@ Step ==
   /\ phase = "body" /\ todo # <<>>
   /\ LET h == todo[1]  rest == Tail(todo) IN
      CASE h.s = "T" -> /\ out' = Append(out, Tok(h.x, "tok", "")) /\ todo' = rest /\ UNCHANGED <<env, budget, nv, cur>>
+       [] h.s = "TY" -> /\ out' = Append(out, Tok(h.x, "type", "")) /\ todo' = rest /\ UNCHANGED <<env, budget, nv, cur>>
        [] h.s = "FUN" ->
             \* fn gk(p1: s1, p2: s2) { body }  - the first parameter unannotated but pinned by a use when sigs[k].pin
             LET k == h.n  sg == sigs[k]
                 p1 == "p" \o ToString(k) \o "a"  p2 == "p" \o ToString(k) \o "b"
                 params == IF Len(sg.ps) = 0 THEN <<>>
-                          ELSE (IF sg.pin THEN <<Sym("PARAM", sg.ps[1], k)>> ELSE <<Sym("PARAM", sg.ps[1], k), T(":"), T(sg.ps[1])>>)
-                               \o (IF Len(sg.ps) = 2 THEN <<T(","), Sym("PARAM2", sg.ps[2], k), T(":"), T(sg.ps[2])>> ELSE <<>>)
+                          ELSE (IF sg.pin THEN <<Sym("PARAM", sg.ps[1], k)>> ELSE <<Sym("PARAM", sg.ps[1], k), T(":"), TY(sg.ps[1])>>)
+                               \o (IF Len(sg.ps) = 2 THEN <<T(","), Sym("PARAM2", sg.ps[2], k), T(":"), TY(sg.ps[2])>> ELSE <<>>)
                 pin == IF sg.pin THEN PinStmt(sg.ps[1], p1) ELSE <<>>
-                retann == IF sg.ret \in D0 THEN <<>> ELSE <<T("->"), T(sg.ret)>>
+                retann == IF sg.ret \in D0 THEN <<>> ELSE <<T("->"), TY(sg.ret)>>
                 bodyx == IF sg.ret \in D0 THEN Sym("EXPRP", sg.ret, 0) ELSE EX(sg.ret)
             IN /\ todo' = <<Sym("FUNSTART", "", k), T("fn"), Sym("FUNNAME", "", k), T("("), Sym("MARK", "", 0)>> \o params \o <<T(")")>> \o retann \o <<T("{")>> \o pin
                           \o <<bodyx, T("}"), Sym("POPMARK", "", 0), Sym("FUNEND", "", k)>> \o rest
